@@ -24,10 +24,14 @@
 (* SeqNext uses the same effects as single atomic steps (one call = one    *)
 (* step): the graph replayed on the real pool by the sequential harness.   *)
 (*                                                                         *)
+(* Block notification (setStateDB + removeOnBlockArrival, as repaired by   *)
+(* /repo f307abce): a block that is a child of the pool's best block (or   *)
+(* that very block again) scans only the lists of the accounts named in    *)
+(* the block (dirty); a block that is NOT a child of the pool's best block *)
+(* (branch switch, corrective announcement after a failed roll-forward)    *)
+(* scans every list (full).  The mock-state test configuration always      *)
+(* scans every list.                                                       *)
 (* Deliberate oddities of the code that are modelled as they are:          *)
-(*  - setStateDB's flag is inverted: a block whose parent IS the pool's    *)
-(*    best block scans every list (full), any other block only the lists   *)
-(*    of the accounts named in the block (dirty);                          *)
 (*  - FilterByState returns early when the nonce did not change (a lower   *)
 (*    balance is then not looked at) and stops at the first too-high nonce *)
 (*    unless the balance decreased;                                        *)
@@ -170,13 +174,17 @@ EvictEffect(S) ==
 NewChain(a, st) == [chain EXCEPT ![a] = st]
 
 \* environment: what a block notification may carry.  chg = <<>> (no modelled account changes) or <<a, st>>.
-\* A block that does not extend the pool's best block (full = FALSE) names every account whose nonce it
-\* advances, and is not preceded by a state change the pool has not been told about.
+\* f = TRUE: the block is not a child of the pool's best block (or the mock configuration): anything may have
+\* changed, every list is scanned.  f = FALSE: a child of the pool's best block (or the same block again): the
+\* state differs from the parent's by the block's own transactions only, so no nonce goes back, every account
+\* whose nonce advances is named in the block (its sender), and no un-notified state change precedes it; a
+\* balance may change without the account being named (reward, contract transfer).
 BlockOK(c, f, d) == /\ c # <<>> => c[2] \in States[c[1]] /\ c[2] # chain[c[1]]
                     /\ f => d = {}
                     /\ ~f => /\ notified
                              /\ d \subseteq DOMAIN pool        \* (naming an account without a list has no effect)
-                             /\ (c # <<>> /\ c[2].nonce > chain[c[1]].nonce /\ c[1] \in DOMAIN pool) => c[1] \in d
+                             /\ c # <<>> => /\ c[2].nonce >= chain[c[1]].nonce
+                                            /\ (c[2].nonce > chain[c[1]].nonce /\ c[1] \in DOMAIN pool) => c[1] \in d
 ChainAfter(c) == IF c = <<>> THEN chain ELSE NewChain(c[1], c[2])
 
 \* ------------------------------------------------------------------ actions
@@ -398,6 +406,12 @@ CountersExact ==
 
 \* once the pool has processed the notification nothing at or below the account nonce is left
 NoStaleAfterBlock == notified => \A a \in DOMAIN pool : \A i \in 1..Len(pool[a].list) : pool[a].list[i].nonce > chain[a].nonce
+
+\* whenever the pool has been told about every state change, every list is based on the current account nonce:
+\* the run get offers starts at state+1 and nothing that is due is held aside (balances may lag: FilterByState's
+\* early return, unnamed balance changes).  Did NOT hold for the code before f307abce (first block of another
+\* branch scanned only its own accounts: rewound accounts kept the old base).
+BaseNonceSynced == notified => \A a \in DOMAIN pool : pool[a].base.nonce = chain[a].nonce
 
 \* a scanned list is based on the new state: what is offered starts at state+1
 ScanSyncs == [][(lastAct'.name \in {"Block", "BlockLock"}) =>
